@@ -133,7 +133,7 @@ def run_track(instr, ops):
             r = track_step(t, op)
             out.append([r, track_out(t)])
         except Exception as e:
-            out.append(canon(e))
+            out.append([canon(e), track_out(t)])
     out.append(track_out(t))
     return out
 
